@@ -33,9 +33,11 @@ def holds : Proc → Bool
   | .gDone _ => false
   | .tCheck _ => false
   | .tClear _ => false
+  | .tNotify _ _ => false
   | .tDone _ _ => false
   | .uSet _ => false
   | .uClear => false
+  | .uNotify _ => false
   | .uDone _ => false
 
 /-- Between the re-check that found the cache empty and `SetWorkload(&item)`. -/
@@ -77,6 +79,21 @@ def GoodDelay (created expire delay cat : Int) : Prop :=
 def procSched : Proc → Prop
   | .gRegStore _ it d cat => GoodDelay it.created it.expire d cat
   | _ => True
+
+/-- The `stores` counter a process remembered when it emptied the cache (between clear and notify). -/
+def notifyMark : Proc → Option Nat
+  | .tNotify _ m => some m
+  | .uNotify m => some m
+  | _ => none
+
+/-- Between `SetWorkload(nil)` and the `default` callback of the same process the cache is empty unless
+    somebody stored a certificate after the clear. -/
+def NotifyInv (y : Sys) : Prop :=
+  ∀ q m, notifyMark (y.procs q) = some m → m ≤ y.st.stores ∧ (y.st.workload.isSome = true → m < y.st.stores)
+
+/-- The cached certificate always has its rotation task in the queue (no ghost state involved). -/
+def HasTaskInv (y : Sys) : Prop :=
+  ∀ w, y.st.workload = some w → ∃ en ∈ y.st.queue, en.created = w.created ∧ en.expire = w.expire
 
 /-- exclusive ownership of generateMutex -/
 def MutexInv (y : Sys) : Prop := ∀ q, holds (y.procs q) = true ↔ y.st.mutex = some q
@@ -130,6 +147,16 @@ def SchedInv (y : Sys) : Prop :=
 @[simp] theorem afterRegRet_key (s : State) (res : Res) (it : Item) : (afterRegRet s res it).key = some it.key := rfl
 @[simp] theorem afterRegRet_cert (s : State) (res : Res) (it : Item) : (afterRegRet s res it).cert = some it.cert := rfl
 @[simp] theorem afterRegRet_ok (s : State) (res : Res) (it : Item) : (afterRegRet s res it).ok = true := rfl
+
+@[simp] theorem notifyWorkload_workload (s : State) : (notifyWorkload s).workload = s.workload := rfl
+@[simp] theorem notifyWorkload_mutex (s : State) : (notifyWorkload s).mutex = s.mutex := rfl
+@[simp] theorem notifyWorkload_queue (s : State) : (notifyWorkload s).queue = s.queue := rfl
+@[simp] theorem notifyWorkload_clears (s : State) : (notifyWorkload s).clears = s.clears := rfl
+@[simp] theorem notifyWorkload_ok (s : State) : (notifyWorkload s).okSinceClear = s.okSinceClear := rfl
+@[simp] theorem notifyWorkload_stores (s : State) : (notifyWorkload s).stores = s.stores := rfl
+@[simp] theorem notifyWorkload_caCalls (s : State) : (notifyWorkload s).caCalls = s.caCalls := rfl
+@[simp] theorem notifyWorkload_cfg (s : State) : (notifyWorkload s).cfg = s.cfg := rfl
+@[simp] theorem notifyWorkload_certRoot (s : State) : (notifyWorkload s).certRoot = s.certRoot := rfl
 
 /-! ### Preservation by `step` -/
 
@@ -363,5 +390,34 @@ theorem step_samePair {y : Sys} (p : Nat) (i : Input) (hB : EpochInv y) (hC : Ca
       rw [ha] at hb
       cases hb
       rw [hk1] at hk2; simpa using hk2
+
+theorem step_notify {y : Sys} (p : Nat) (i : Input) (h : NotifyInv y) : NotifyInv (step y p i) := by
+  intro q m
+  have hq := h q m
+  have hp := h p m
+  unfold step
+  simp only [finish]
+  split <;> try exact hq
+  all_goals (repeat' split)
+  all_goals (by_cases hqp : q = p)
+  all_goals (first
+    | (subst hqp; simp_all [notifyMark, clearWorkload, notifyWorkload]; done)
+    | (subst hqp; simp_all [notifyMark, clearWorkload, notifyWorkload]; omega)
+    | (simp_all [notifyMark, clearWorkload, notifyWorkload]; done)
+    | (simp_all [notifyMark, clearWorkload, notifyWorkload]; omega)
+    | (simp_all [notifyMark, clearWorkload, notifyWorkload]
+       intro hm; have := hq hm; omega))
+
+theorem step_hasTask {y : Sys} (p : Nat) (i : Input) (h : HasTaskInv y) : HasTaskInv (step y p i) := by
+  intro w
+  have hw := h w
+  unfold step
+  simp only [finish]
+  split <;> try exact hw
+  all_goals (repeat' split)
+  all_goals (first
+    | (simp_all [clearWorkload]; done)
+    | (intro hs; simp only [Option.some.injEq] at hs; subst hs
+       exact ⟨_, List.mem_append_right _ (List.mem_singleton.2 rfl), rfl, rfl⟩))
 
 end IstioModel.C18
